@@ -32,6 +32,11 @@ CHECKS = {
    text="TLC checks UpExact/DownOrdered/HalfCloseSeen and the liveness property Cleanup (handler returns, every upstream connection closed, nothing lost when both ends finish gracefully) on the code-shaped model of Handler.proxy (pump, one copier per upstream connection, main) with two upstream connections for every combination of client/upstream half-close, close and reset; the real handler relays between loopback TCP client and upstream servers for a TLC-enumerated grid (who finishes first and how x payload sizes up to 1 MiB x chunkings x 1-2 peers x bytes prefetched into the matching buffer) and TLC judges the observations against clauses P1-P5 of L4ProxyAbs.",
    note="loopback TCP only (TLS / Unix sockets not exercised); kernel TCP trusted; timing slack 15 s for return, 3 s for closure",
    technique="TLA+ model of the proxy relay goroutines checked with TLC (safety + liveness); trace validation of the real handler over loopback TCP"),
+
+ "C11": dict(level="model_checking", design="5 C11, 4.6",
+   text="TLC checks CountExact (failure counter = failures remembered from the last fail_duration), NeverNegative, LimitRespected, ConnsExact and GiveUpOnlyLate on the timed model of Handle/dialPeers/countFailure/tryAgain over all histories of dial failures, outages, recoveries, connection opens/ends (2 peers, 2-3 connections, integer ticks). The real handler runs in scaled real time for a TLC-enumerated grid: failure-window scripts (counters and rotation membership sampled through an accessor, failures observed through hooks), retry runs against refusing peers (attempt spacing, give-up time, last error), connection-limit runs (max_connections and unhealthy_connection_count with loopback upstreams recording who got which connection) and active health checks (peer refusing / accepting); TLC judges the timed traces against clauses W1-W2/R1-R4/L1-L2/A1 of L4HealthAbs.",
+   note="scaled real time with 45 ms tolerance at window edges; disturbed runs repeated then inconclusive; one peer per upstream in the timed runs",
+   technique="timed TLA+ model of health accounting and retries checked with TLC; timed trace validation of the real proxy handler"),
 }
 NA = {
 }
